@@ -687,8 +687,11 @@ def baseline(props, repo):
 
 def self_validate(prop: str, repo: str, jobs: int = 16):
     """Run all variants of `prop`; returns (results, summary)."""
-    variants = [v for v in CATALOGUE + fix_reverts() + seed_variants() + twin_variants()
-                if v.prop == prop]
+    variants = [v for v in CATALOGUE + fix_reverts() + seed_variants() if v.prop == prop]
+    # a refactoring written for one property must keep *every* check silent
+    # (checks share front ends and rules: Z3 re-uses C01, A5 re-uses C20, ...)
+    import dataclasses
+    variants += [dataclasses.replace(v, prop=prop) for v in twin_variants()]
     variants.append(Variant("auto-rename-all-locals", prop, "autotwin"))
     variants.append(Variant("auto-reformat-python", prop, "autotwin"))
     variants.append(Variant("auto-rename-kernel-params", prop, "autotwin"))
